@@ -88,7 +88,7 @@ func (lib *SpecLib) Solve(o *Obligation, timeoutS int, all bool) *SolveResult {
 			r = r2
 		}
 	}
-	if r.Status == "timeout" || r.Status == "unknown" {
+	if (r.Status == "timeout" || r.Status == "unknown") && os.Getenv("VERIF_NO_RETRY") == "" {
 		r3 := lib.solve1(o, timeoutS*4, all, ".retry")
 		if r3.Status == "unsat" || r3.Status == "sat" {
 			return r3
@@ -176,6 +176,8 @@ func (lib *SpecLib) solve1(o *Obligation, timeoutS int, all bool, suffix string)
 func (lib *SpecLib) SolveAll(obls []*Obligation, timeoutS int, workers int, all bool) {
 	var wg sync.WaitGroup
 	sem := make(chan struct{}, workers)
+	var mu sync.Mutex
+	failedIn := map[string]int{}
 	for _, o := range obls {
 		if o.Static != nil {
 			st := "unsat"
@@ -198,7 +200,21 @@ func (lib *SpecLib) SolveAll(obls []*Obligation, timeoutS int, workers int, all 
 			if o.Canary {
 				t = 3
 			}
+			if o.Group != "" {
+				mu.Lock()
+				nf := failedIn[o.Group]
+				mu.Unlock()
+				if nf >= 2 {
+					o.Res = &SolveResult{Status: "unknown", Output: "not attempted: two other pieces of this split postcondition already failed"}
+					return
+				}
+			}
 			o.Res = lib.Solve(o, t, all && !o.Canary)
+			if o.Group != "" && o.Res.Status != "unsat" {
+				mu.Lock()
+				failedIn[o.Group]++
+				mu.Unlock()
+			}
 		}(o)
 	}
 	wg.Wait()
